@@ -24,7 +24,7 @@ func main() {
 	update := flag.Bool("update-ledger", false, "rewrite the ledger for this property from the current run")
 	verbose := flag.Bool("v", false, "verbose")
 	only := flag.String("func", "", "only this function (debug)")
-	timeout := flag.Int("timeout", 0, "per-obligation solver timeout in seconds (default 20 quick / 60 thorough)")
+	timeout := flag.Int("timeout", 0, "per-obligation solver timeout in seconds (default 30 quick / 60 thorough)")
 	flag.Parse()
 	if *prop == "" {
 		fmt.Fprintln(os.Stderr, "usage: govc -prop Cxx")
@@ -40,7 +40,7 @@ func main() {
 	}
 	to := time.Duration(*timeout) * time.Second
 	if *timeout == 0 {
-		to = 20 * time.Second
+		to = 30 * time.Second // slowest claimed obligation: ~9 s (C19 isDomainAllowed inv-step); everything else < 5 s
 		if *tier == "thorough" {
 			to = 60 * time.Second
 		}
